@@ -45,6 +45,19 @@ type Hooks interface {
 	Release(m any, kind Kind)
 }
 
+// AfterUnlockHooks may additionally be implemented by Hooks to be told
+// when a lock has been released, i.e. after the underlying unlock
+// completed. It may block the calling goroutine.
+type AfterUnlockHooks interface {
+	AfterUnlock(m any, kind Kind)
+}
+
+func afterUnlock(h Hooks, m any, kind Kind) {
+	if h2, ok := h.(AfterUnlockHooks); ok {
+		h2.AfterUnlock(m, kind)
+	}
+}
+
 // H holds the currently installed hooks. It must only be changed while
 // no goroutine is performing lock operations.
 var H Hooks
@@ -78,6 +91,9 @@ func (m *Mutex) TryLock() bool {
 func (m *Mutex) Unlock() {
 	if h := H; h != nil {
 		h.Release(m, KindLock)
+		m.mu.Unlock()
+		afterUnlock(h, m, KindLock)
+		return
 	}
 	m.mu.Unlock()
 }
@@ -111,6 +127,9 @@ func (m *RWMutex) TryLock() bool {
 func (m *RWMutex) Unlock() {
 	if h := H; h != nil {
 		h.Release(m, KindLock)
+		m.mu.Unlock()
+		afterUnlock(h, m, KindLock)
+		return
 	}
 	m.mu.Unlock()
 }
@@ -141,6 +160,9 @@ func (m *RWMutex) TryRLock() bool {
 func (m *RWMutex) RUnlock() {
 	if h := H; h != nil {
 		h.Release(m, KindRLock)
+		m.mu.RUnlock()
+		afterUnlock(h, m, KindRLock)
+		return
 	}
 	m.mu.RUnlock()
 }
